@@ -50,6 +50,12 @@ CLAIMED = {
         text='Props/C03.lean: for the PANOC loop model (all problem oracles, direction providers, stop schedules, budgets incl. 0, both overwrite settings, any carrier incl. IEEE doubles): whenever outputs are overwritten x_out is the x-hat of a prox step (so in C), y_out is the psi-oracle y-hat at that very x_out, err_z = (y_out - y_in)/Sigma; otherwise x, y, err_z are untouched. The model is replayed bit-for-bit against the real PANOCSolver (callbacks, outputs, statistics, oracle-call count). Partial: ZeroFPR / PANTR / FISTA / PANOC-OCP are covered by the monitors only until their loop models land.',
         note='Lean kernel + Mathlib; hand-written loop model tied on explored runs only; decision kernels regenerated by gen_c05/gen_c06; psi / y-hat oracles assumed to equal their closed forms (C04); two genuine defects found by this check were repaired (known-findings.json: fixed).',
         design='§6 C03, §7-J1,J2'),
+    'C01': dict(
+        technique='Lean 4 proof (normal-cone certificate of the forward-backward step, any dimension / finite-infinite-equal bounds) composed with the C03/C04/C06/C07 theorems + exact-rational KKT monitors on the real ALMSolver over all ten stacks',
+        category='proof',
+        text='Props/C01.lean: the projected-gradient step exhibits a normal-cone element; if the generated ApproxKKT criterion of the final iterate is <= tol then every coordinate of -grad L(x_hat, y_hat) is within tol of N_C(x_hat) (Certified), feasibility of x_hat; composed with C03 (write-back), C04 (y_hat / err_z closed forms), C06 (Converged iff eps <= tol), C07 (ALM termination test). The end-to-end statement is monitored on the real ALMSolver (PANOC/ZeroFPR x 4 directions, PANTR, FISTA): on Converged the three KKT residuals are recomputed in exact rationals from f, grad f, g, grad g*y, C, D alone and compared with compute_kkt_error.',
+        note='Lean kernel + Mathlib; translators gen_c15/gen_c06; real-number semantics, binary64 rounding gap measured by the monitor (margin ~1e-9 x gradient scale); the composition relies on the separately tied models of C03/C04/C06/C07.',
+        design='§6 C01'),
 }
 
 NOT_YET = {
